@@ -77,13 +77,13 @@ func (h UserDataHeader) WriteTo(w io.Writer) (n int64, err error) {
 }
 
 func (h UserDataHeader) ConcatenatedHeader() *ConcatenatedHeader {
-	if data, ok := h[0x00]; ok {
+	if data, ok := h[0x00]; ok && len(data) >= 3 {
 		return &ConcatenatedHeader{
 			Reference:  uint16(data[0]),
 			TotalParts: data[1],
 			Sequence:   data[2],
 		}
-	} else if data, ok = h[0x08]; ok {
+	} else if data, ok = h[0x08]; ok && len(data) >= 4 {
 		return &ConcatenatedHeader{
 			Reference:  binary.BigEndian.Uint16(data[0:2]),
 			TotalParts: data[2],
